@@ -265,6 +265,14 @@ pub enum DbOp {
     /// (faults / crash oracles only) close, drop crash leftovers into the directory - an orphan
     /// table file, a temp file, a superseded manifest - and reopen
     Plant,
+    /// manual compaction of ONE level over a user-key range (the crate's own test hook
+    /// `force_level_compaction`); None = open end
+    CompactLevel(usize, Option<Vec<u8>>, Option<Vec<u8>>),
+    /// release the oldest snapshot still held by the history
+    ReleaseSnapshot,
+    /// close and reopen with `max_file_size` set to the given value (options may change between
+    /// reopens, C01); snapshots and pinned iterators end here
+    ReopenSmallFiles(u64),
 }
 
 fn make_batch(ops: &[(Vec<u8>, Option<Vec<u8>>)]) -> crate::Batch {
@@ -292,6 +300,13 @@ pub fn run_history(ops: &[DbOp], keys: &[Vec<u8>]) -> Vec<String> {
             DbOp::CompactAll => db.as_ref().unwrap().compact_range(None..None),
             DbOp::Snapshot => {}
             DbOp::Plant => {}
+            DbOp::ReleaseSnapshot => {}
+            DbOp::CompactLevel(level, lo, hi) => db.as_ref().unwrap().force_level_compaction(*level, &(lo.as_deref()..hi.as_deref())),
+            DbOp::ReopenSmallFiles(n) => {
+                drop(db.take());
+                options.max_file_size = *n;
+                db = Some(DB::open(options.clone()).unwrap());
+            }
             DbOp::PinIterator(_) => {}
             DbOp::Batch(ops) => db.as_ref().unwrap().apply(WriteOptions::default(), make_batch(ops)).unwrap(),
             DbOp::Reopen(reuse) => {
@@ -375,6 +390,15 @@ pub fn run_views(ops: &[DbOp], keys: &[Vec<u8>], moves: &str) -> Vec<View> {
             DbOp::CompactAll => db.as_ref().unwrap().compact_range(None..None),
             DbOp::Snapshot => snaps.push((i, db.as_ref().unwrap().get_snapshot())),
             DbOp::Plant => {}
+            DbOp::ReleaseSnapshot => { if !snaps.is_empty() { let (_, s0) = snaps.remove(0); db.as_ref().unwrap().release_snapshot(s0); } }
+            DbOp::CompactLevel(level, lo, hi) => db.as_ref().unwrap().force_level_compaction(*level, &(lo.as_deref()..hi.as_deref())),
+            DbOp::ReopenSmallFiles(n) => {
+                snaps.clear();
+                pinned.clear();
+                drop(db.take());
+                options.max_file_size = *n;
+                db = Some(DB::open(options.clone()).unwrap());
+            }
             DbOp::Batch(ops) => db.as_ref().unwrap().apply(WriteOptions::default(), make_batch(ops)).unwrap(),
             DbOp::Reopen(reuse) => {
                 snaps.clear();
